@@ -213,4 +213,10 @@ def gen_jobs(rng, quick, opts_list, with_lexical=True, nrand=None, maxlen=None, 
             prods, text = r
             inputs = list(gramgen.all_strings(["a", "b"], 5 if quick else 6))
             jobs.append(("lexlen%d" % i, text, inputs, opts_list[i % len(opts_list)]))
+        for i in range(nun // 2):
+            r = gramgen.lexamb_grammar(rng)
+            if r is None:
+                continue
+            inputs = list(gramgen.all_strings(["a", "b"], 4 if quick else 5))
+            jobs.append(("lexamb%d" % i, r[1], inputs, opts_list[i % len(opts_list)]))
     return jobs
